@@ -388,6 +388,190 @@ theorem proj_other (cfg : Cfg) (st : St) (p q : Peer) (c k : Conn) (hne : ¬ (p 
   · split <;> simp [mem_removeConn, hne]
   · simp [mem_setConn, hne]
 
+/-! ## the circuit ledger (Spec part 2) agrees with the model -/
+
+/-- after every request all tracked circuits are `Accepted` and their ids are below `next_id` -/
+structure LInv (st : St) : Prop where
+  acc : ∀ k ∈ st.circuits, k.accepted = true
+  ids : ∀ k ∈ st.circuits, k.id < st.nextId
+
+theorem LInv.empty : LInv St.empty := ⟨by simp [St.empty], by simp [St.empty]⟩
+
+theorem map_accept_id (l : List Circuit) (id : Nat) (h : ∀ k ∈ l, k.accepted = true) :
+    l.map (fun k => if k.id == id then { k with accepted := true } else k) = l := by
+  induction l with
+  | nil => rfl
+  | cons k ks ih =>
+    have hk := h k (List.mem_cons_self ..)
+    simp only [List.map_cons, ih (fun k' hk' => h k' (List.mem_cons_of_mem _ hk'))]
+    congr 1
+    split
+    · cases k; simp_all
+    · rfl
+
+theorem filter_ne_of_lt (l : List Circuit) (n : Nat) (h : ∀ k ∈ l, k.id < n) :
+    l.filter (fun k => !(k.id == n)) = l := by
+  apply List.filter_eq_self.2
+  intro k hk
+  have := h k hk
+  simp; omega
+
+/-- the four possible results of the `CircuitReqReceived` arm -/
+theorem circReq_cases (cfg : Cfg) (st : St) (p : Peer) (c : Conn) (dst : Peer) (rate : Bool) (pick : Option Conn) :
+    let r := step Variant.repaired cfg st (.circReq p c dst rate pick)
+    r = (st, .circDenyLimit) ∨ r = (st, .circDenyNoRes) ∨ r = (st, .badOracle) ∨
+    ∃ dc, pick = some dc ∧
+      r = ({ st with circuits := st.circuits ++ [⟨st.nextId, p, c, dst, dc, false⟩], nextId := st.nextId + 1 },
+           .circAccept st.nextId) := by
+  simp only [step]
+  split
+  · exact Or.inl rfl
+  · split
+    · cases pick with
+      | none => exact Or.inr (Or.inr (Or.inl rfl))
+      | some dc =>
+        simp only
+        split
+        · exact Or.inr (Or.inr (Or.inr ⟨dc, rfl, rfl⟩))
+        · exact Or.inr (Or.inr (Or.inl rfl))
+    · exact Or.inr (Or.inl rfl)
+
+/-- reservation events leave the circuit table alone -/
+theorem res_circuits (cfg : Cfg) (st : St) (op : Op)
+    (hop : (∃ p c r t, op = .resReq p c r t) ∨ (∃ p c, op = .resAccepted p c)) :
+    (step Variant.repaired cfg st op).1.circuits = st.circuits ∧
+    (step Variant.repaired cfg st op).1.nextId = st.nextId := by
+  rcases hop with ⟨p, c, r, t, rfl⟩ | ⟨p, c, rfl⟩ <;> simp only [step] <;> split <;> exact ⟨rfl, rfl⟩
+
+/-- **the ledger is the model's circuit table**: kept only from the observed outcomes of the
+requests, it equals `CircuitsTracker.circuits` of the model after every request -/
+theorem ledger_tracks (cfg : Cfg) (st : St) (op : DOp) (h : LInv st) :
+    ledgerStep st.circuits op (dstep Variant.repaired cfg st op).2 = (dstep Variant.repaired cfg st op).1.circuits
+    ∧ LInv (dstep Variant.repaired cfg st op).1 := by
+  cases op with
+  | conn p c => exact ⟨rfl, ⟨h.acc, h.ids⟩⟩
+  | closeconn p c =>
+    refine ⟨rfl, ⟨fun k hk => h.acc k (List.mem_filter.1 hk).1, fun k hk => h.ids k (List.mem_filter.1 hk).1⟩⟩
+  | closecirc id =>
+    refine ⟨rfl, ⟨fun k hk => h.acc k (List.mem_filter.1 hk).1, fun k hk => h.ids k (List.mem_filter.1 hk).1⟩⟩
+  | reserve p c renewed =>
+    have e1 := res_circuits cfg st (.resReq p c renewed true) (Or.inl ⟨p, c, renewed, true, rfl⟩)
+    simp only [dstep]
+    generalize step Variant.repaired cfg st (.resReq p c renewed true) = r1 at e1 ⊢
+    obtain ⟨st1, o1⟩ := r1
+    simp only at e1
+    have hl1 : LInv st1 := ⟨by rw [e1.1]; exact h.acc, by rw [e1.1, e1.2]; exact h.ids⟩
+    cases o1 <;> simp only <;> try exact ⟨by simp [ledgerStep, e1.1], hl1⟩
+    have e2 := res_circuits cfg st1 (.resAccepted p c) (Or.inr ⟨p, c, rfl⟩)
+    generalize step Variant.repaired cfg st1 (.resAccepted p c) = r2 at e2 ⊢
+    obtain ⟨st2, o2⟩ := r2
+    simp only at e2
+    have hl2 : LInv st2 := ⟨by rw [e2.1]; exact hl1.acc, by rw [e2.1, e2.2]; exact hl1.ids⟩
+    cases o2 <;> simp only <;> first | exact ⟨by simp [ledgerStep, e2.1, e1.1], hl2⟩ | exact ⟨rfl, h⟩
+  | circuit p c dst pick =>
+    simp only [dstep]
+    rcases circReq_cases cfg st p c dst true pick with e | e | e | ⟨dc, hp, e⟩
+    · rw [e]; exact ⟨by simp [ledgerStep], h⟩
+    · rw [e]; exact ⟨by simp [ledgerStep], h⟩
+    · rw [e]; exact ⟨by simp [ledgerStep], h⟩
+    · subst hp
+      rw [e]
+      simp only [step, ledgerStep, List.map_append, List.map_cons, List.map_nil, beq_self_eq_true, ↓reduceIte,
+        map_accept_id _ _ h.acc]
+      refine ⟨trivial, ⟨?_, ?_⟩⟩
+      · intro k hk
+        rcases List.mem_append.1 hk with hk | hk
+        · exact h.acc k hk
+        · simp at hk; subst hk; rfl
+      · intro k hk
+        rcases List.mem_append.1 hk with hk | hk
+        · have := h.ids k hk; simp only; omega
+        · simp at hk; subst hk; simp
+  | circuitFail p c dst =>
+    simp only [dstep]
+    rcases circReq_cases cfg st p c dst true ((st.conns.find? (fun e => e.1 == dst && e.2.2)).map (·.2.1))
+      with e | e | e | ⟨dc, _, e⟩
+    · rw [e]; exact ⟨by simp [ledgerStep], h⟩
+    · rw [e]; exact ⟨by simp [ledgerStep], h⟩
+    · rw [e]; exact ⟨by simp [ledgerStep], h⟩
+    · rw [e]
+      simp only [step, ledgerStep, List.filter_append, filter_ne_of_lt _ _ h.ids, List.filter_cons,
+        beq_self_eq_true, Bool.not_true, Bool.false_eq_true, ↓reduceIte, List.filter_nil, List.append_nil]
+      exact ⟨trivial, ⟨h.acc, fun k hk => by have := h.ids k hk; simp only; omega⟩⟩
+
+/-- the handler contract on requests: a reservation request flagged `renewed` comes from a
+connection recorded active (`C47.handler_contract`) -/
+def DOk (st : St) : DOp → Prop
+  | .reserve p c renewed => renewed = true → (p, c, true) ∈ st.conns
+  | _ => True
+
+theorem dstep_inv (cfg : Cfg) (st : St) (op : DOp) (h : Inv cfg st) (hok : DOk st op) :
+    Inv cfg (dstep Variant.repaired cfg st op).1 := by
+  cases op with
+  | conn p c => exact step_inv cfg st _ h trivial
+  | closeconn p c => exact step_inv cfg st _ h trivial
+  | closecirc id => exact step_inv cfg st _ h trivial
+  | reserve p c renewed =>
+    have h1 := step_inv cfg st (.resReq p c renewed true) h hok
+    have hp := proj_resReq cfg st p c renewed true
+    simp only [dstep]
+    generalize step Variant.repaired cfg st (.resReq p c renewed true) = r1 at h1 hp ⊢
+    obtain ⟨st1, o1⟩ := r1
+    cases o1 <;> simp only <;> try exact h1
+    have hm : (p, c, true) ∈ st1.conns := hp.1 rfl
+    have h2 := step_inv cfg st1 (.resAccepted p c) h1 hm
+    generalize step Variant.repaired cfg st1 (.resAccepted p c) = r2 at h2 ⊢
+    obtain ⟨st2, o2⟩ := r2
+    cases o2 <;> simp only <;> first | exact h2 | exact h
+  | circuit p c dst pick =>
+    have h1 := step_inv cfg st (.circReq p c dst true pick) h trivial
+    simp only [dstep]
+    generalize step Variant.repaired cfg st (.circReq p c dst true pick) = r1 at h1 ⊢
+    obtain ⟨st1, o1⟩ := r1
+    cases o1 <;> simp only <;> first | exact h1 | exact h | exact step_inv cfg st1 _ h1 trivial
+  | circuitFail p c dst =>
+    simp only [dstep]
+    have h1 := step_inv cfg st (.circReq p c dst true ((st.conns.find? (fun e => e.1 == dst && e.2.2)).map (·.2.1))) h trivial
+    generalize step Variant.repaired cfg st (.circReq p c dst true _) = r1 at h1 ⊢
+    obtain ⟨st1, o1⟩ := r1
+    cases o1 <;> simp only <;> first | exact h1 | exact h | exact step_inv cfg st1 _ h1 trivial
+
+/-- the model and the ledger monitor run side by side, request by request -/
+def ledgerRun (cfg : Cfg) : St → List Circuit → List DOp → List String
+  | _, _, [] => []
+  | st, l, op :: ops =>
+    let r := dstep Variant.repaired cfg st op
+    let l' := ledgerStep l op r.2
+    specLedger cfg l' :: ledgerRun cfg r.1 l' ops
+
+def DContract (cfg : Cfg) : St → List DOp → Prop
+  | _, [] => True
+  | st, op :: ops => DOk st op ∧ DContract cfg (dstep Variant.repaired cfg st op).1 ops
+
+theorem specLedger_of_inv (cfg : Cfg) (st : St) (h : Inv cfg st) : specLedger cfg st.circuits = "ok" := by
+  unfold specLedger
+  have h2 : st.circuits.all (fun k => decide (numOf st.circuits k.src ≤ cfg.maxCircPerPeer)
+      && decide (numOf st.circuits k.dst ≤ cfg.maxCircPerPeer)) = true := by
+    simp only [List.all_eq_true, Bool.and_eq_true, decide_eq_true_eq]
+    intro k _; exact ⟨h.circPerPeer k.src, h.circPerPeer k.dst⟩
+  simp [h2, h.circTotal]
+
+/-- **the ledger Spec accepts the model**: for every request sequence within the handler contract,
+the circuit limits judged on the independently kept ledger hold after every request -/
+theorem spec_accepts_model_ledger (cfg : Cfg) (ops : List DOp) :
+    ∀ st, Inv cfg st → LInv st → DContract cfg st ops →
+      ∀ v ∈ ledgerRun cfg st st.circuits ops, v = "ok" := by
+  induction ops with
+  | nil => intro st _ _ _ v hv; simp [ledgerRun] at hv
+  | cons op ops ih =>
+    intro st hi hl hc v hv
+    obtain ⟨e, hl'⟩ := ledger_tracks cfg st op hl
+    have hi' := dstep_inv cfg st op hi hc.1
+    simp only [ledgerRun, e] at hv
+    rcases List.mem_cons.1 hv with rfl | hv
+    · exact specLedger_of_inv cfg _ hi'
+    · exact ih _ hi' hl' hc.2 v hv
+
 /-! ## non-vacuity -/
 
 /-- a trace within the contract that reaches every limit exactly -/
@@ -425,3 +609,6 @@ end C47
 #print axioms C47.proj_resTimedOut
 #print axioms C47.proj_resAccepted
 #print axioms C47.proj_other
+#print axioms C47.ledger_tracks
+#print axioms C47.dstep_inv
+#print axioms C47.spec_accepts_model_ledger
